@@ -117,6 +117,14 @@ impl<'a> Dispatcher<'a, '_> {
     pub fn max_threads(&self) -> usize {
         self.inner.max_threads()
     }
+
+    /// Verification hook: the executed layout (see
+    /// `SendDispatcher::verif_layout`) and the number of thread-local
+    /// systems. Read-only.
+    #[cfg(feature = "verif-hooks")]
+    pub fn verif_layout(&self) -> (Vec<Vec<usize>>, usize) {
+        (self.inner.verif_layout(), self.thread_local.len())
+    }
 }
 
 impl RunNow<'_> for Dispatcher<'_, '_> {
